@@ -779,10 +779,18 @@ func (st *ex6State) oracle(v *vio) {
 				}
 			} else {
 				// one-sided: see X-fail-count
-				if len(phase) < st.tries {
+				byDatagram := false // see X-fail-count
+				for _, r := range st.rx {
+					if r.t == o.retT && r.seq < o.retSeq {
+						byDatagram = true
+					}
+				}
+				if !byDatagram {
+					st.s.Probe("exchange-gave-up-at-an-instant-without-a-delivery")
+				} else if len(phase) < st.tries {
 					v.add("Y-fail-count", "%s: gave up after %d transmission(s) of its last message, configured tries = %d", name, len(phase), st.tries)
 				}
-				if want := st.T * time.Duration((int64(1)<<uint(st.tries))-1); !st.stall && o.retT-phase[0].t < want {
+				if want := st.T * time.Duration((int64(1)<<uint(st.tries))-1); byDatagram && !st.stall && o.retT-phase[0].t < want {
 					v.add("Y-fail-duration", "%s: gave up %v after first transmitting its last message, before the configured schedule ends at %v (T=%v, tries=%d)", name, o.retT-phase[0].t, want, st.T, st.tries)
 				}
 			}
